@@ -98,7 +98,13 @@ func mustReject(cs api.Case) (bool, string) {
 			return true, "door outside 1..4"
 		}
 	case "SetTimeProfile":
-		if c.From.IsZero() || c.To.IsZero() {
+		present := func(i int, civil spec.Civil) bool {
+			if t, ok := api.Extreme(v.ExtremeDate[i]); ok {
+				return !t.IsZero() // (the argument is this value, whatever the civil fields say)
+			}
+			return !civil.IsZero()
+		}
+		if !present(0, c.From) || !present(1, c.To) {
 			return true, "missing date"
 		}
 		if v.SegmentsNil || len(v.MissingSegments) > 0 {
@@ -175,6 +181,10 @@ func decideWarm(c cfgCase) (*rp.Fail, bool) {
 	}
 	if len(sends) != 1 {
 		return rp.Failf(site+"/rejects-valid", "%s with arguments in the accepted domain made %d transport calls (result %v)", cs.Call.Op, len(sends), res), reject
+	}
+	if _, unusual := api.Extreme(cs.V.ExtremeDate[0]); unusual || func() bool { _, u := api.Extreme(cs.V.ExtremeDate[1]); return u }() {
+		// (dates outside 0001..9999 have no BCD form; what is sent in their place is not judged - only that the call is not rejected)
+		return nil, reject
 	}
 	if want := spec.Request(cs.Call); !bytes.Equal(sends[0].Request, want) {
 		return rp.Failf(site+"/request-bytes", "%s sent %x, protocol encoding is %x", cs.Call.Op, sends[0].Request, want), reject
@@ -279,6 +289,14 @@ func perturb(t *rapid.T, cs *api.Case) {
 		c.PIN = rapid.SampledFrom([]uint32{0, 999998, 999999, 1000000, 1000001, 0xffffff, 0x1000000, 0xffffffff}).Draw(t, "pin")
 	case "formats":
 		v.Formats = rapid.SampledFrom([][]uint8{{0}, {1}, {1}, {0, 1}, {1, 0}, {1, 1}, {0, 0}}).Draw(t, "formats")
+		if rapid.IntRange(0, 3).Draw(t, "formats.undefined") == 0 {
+			// format values the library does not define (a newer caller, a cast from configuration text): they match no card number
+			n := rapid.IntRange(1, 4).Draw(t, "formats.n")
+			v.Formats = nil
+			for i := 0; i < n; i++ {
+				v.Formats = append(v.Formats, rapid.SampledFrom([]uint8{1, 1, 0, 2, 2, 3, 26, 34, 127, 128, 254, 255}).Draw(t, "format"))
+			}
+		}
 	case "listener":
 		v.ListenerRaw = rapid.SampledFrom([]string{"invalid", "0.0.0.0:0", "0.0.0.0:60001", "192.168.1.100:0", "192.168.1.100:60001", "255.255.255.255:65535", "[::1]:60001", "[::]:0", "[2001:db8::1]:60001",
 			"[::ffff:192.168.1.100]:60001", "[::ffff:0.0.0.0]:0", "[fe80::1%eth0]:60001", "[fe80::1%eth0]:0", "1.2.3.4:1"}).Draw(t, "listener")
@@ -316,6 +334,13 @@ func perturb(t *rapid.T, cs *api.Case) {
 	case "door":
 		c.Door = rapid.SampledFrom([]uint8{0, 1, 4, 5, 6, 127, 128, 255}).Draw(t, "door")
 	case "dates":
+		if rapid.IntRange(0, 3).Draw(t, "unusual") == 0 {
+			// dates that are present but unusual (before the common era, beyond year 9999, the ends of the time.Time range): they are
+			// not missing, so they are no reason to reject the call
+			rep := rapid.SampledFrom([]string{"negative", "y10000", "max", "min"}).Draw(t, "unusual.repr")
+			v.ExtremeDate[rapid.IntRange(0, 1).Draw(t, "unusual.which")] = rep
+			break
+		}
 		// a missing date: the zero Date literal, or the zero instant in another representation
 		rep := rapid.SampledFrom([]string{"", "", "zero", "zero-local", "zero-unix"}).Draw(t, "zero.repr")
 		if rapid.Bool().Draw(t, "from.zero") {
